@@ -29,6 +29,7 @@ import (
 	"net/http/httptrace"
 	"net/textproto"
 	"net/url"
+	"regexp"
 	"sort"
 	"strings"
 	"time"
@@ -101,6 +102,7 @@ type c20SCfg struct {
 	STS   int64  `json:"sts"`
 	Sub   bool   `json:"sub"`
 	Pre   bool   `json:"pre"`
+	Gzip  bool   `json:"gzip"` // proxy.gzip.contenttype set (text/…): the handler is wrapped in the gzip handler
 }
 
 type c20ServeIn struct {
@@ -392,6 +394,9 @@ func runServe(in *c20ServeIn) (interface{}, error) {
 	}
 	rec := &recLogger{inner: inner}
 	cfg := config.Proxy{RequestID: in.Cfg.ReqID, STSHeader: config.STSHeader{MaxAge: int(in.Cfg.STS), Subdomains: in.Cfg.Sub, Preload: in.Cfg.Pre}}
+	if in.Cfg.Gzip {
+		cfg.GZIPContentTypes = regexp.MustCompile(`^text/`)
+	}
 	var cur *c20ServeReq
 	rt, rtTwin := &scriptRT{reqid: in.Cfg.ReqID}, &scriptRT{reqid: in.Cfg.ReqID}
 	var now func() time.Time
@@ -649,12 +654,17 @@ func genServe(r *hx.Rand) c20ServeIn {
 		in.Cfg.Sub, in.Cfg.Pre = r.Chance(1, 2), r.Chance(1, 3)
 	}
 	in.Items = genServeItems(r, in.Cfg.ReqID)
+	in.Cfg.Gzip = r.Chance(1, 6)
 	n := 1
 	if r.Chance(1, 4) {
 		n = 2 + r.Intn(3)
 	}
 	for k := 0; k < n; k++ {
-		in.Reqs = append(in.Reqs, genServeReq(r))
+		q := genServeReq(r)
+		if in.Cfg.Gzip && r.Chance(3, 4) { // the client's say on compression
+			q.Hdr = append(q.Hdr, c20Hdr{K: "Accept-Encoding", V: []string{r.Pick([]string{"gzip", "gzip, deflate", "br;q=1.0, gzip;q=0.5", "identity", "gzip;q=0", "deflate"})}})
+		}
+		in.Reqs = append(in.Reqs, q)
 	}
 	return in
 }
@@ -696,6 +706,11 @@ func init() {
 			c20ServeIn{Items: []c20Item{{"header", "Referer"}}, Reqs: []c20ServeReq{base}},
 			// the upstream breaks in the middle of a streamed body: the client must not get it as a complete response
 			c20ServeIn{Items: urls, Reqs: []c20ServeReq{with(func(q *c20ServeReq) { q.Up = c20Up{Info: []int{}, Status: 200, Chunks: []int{33}, Cut: true} }), base}},
+			// compression configured and asked for: status and size in the log are what the client connection got
+			c20ServeIn{Items: urls, Cfg: c20SCfg{Gzip: true}, Reqs: []c20ServeReq{with(func(q *c20ServeReq) {
+				q.Hdr = []c20Hdr{{K: "Accept-Encoding", V: []string{"gzip"}}}
+				q.Up = c20Up{Info: []int{}, Status: 200, Chunks: []int{4096, 4096}}
+			})}},
 			// answered by the proxy itself: no route, bad remote address, transport error
 			c20ServeIn{Items: c20Common, Reqs: []c20ServeReq{with(func(q *c20ServeReq) { q.Route = nil }), with(func(q *c20ServeReq) { q.Remote = "1.2.3.4" }),
 				with(func(q *c20ServeReq) { q.Up = c20Up{Info: []int{}, Chunks: []int{}, Err: "timeout"} })}},
